@@ -25,6 +25,7 @@ load(save(loaded)) == loaded and identical (set-order normalised) JSON text on
 the second trip.  Files live in a private directory under /dev/shm which is
 removed.
 """
+import contextlib
 import copy
 import itertools
 import json
@@ -32,13 +33,14 @@ import os
 import pickle
 import shutil
 import tempfile
+import traceback
 from collections.abc import Iterable
 
 import numpy as np
 
 from vmc.parallel import run_shards, shard
 from vmc import bfs
-from vmc.report import Check
+from vmc.report import Broken, Check
 
 PID = "C17"
 LEVEL = "exploration"
@@ -53,7 +55,12 @@ RULE = ("P: all dictionaries with 1..2 (thorough 3) entries over the value alpha
         "B: SimulationResults bookkeeping grid - runned_reps in {None,0,[],[0],[0,0],int64(0),7,[2,5]} x current_rep in "
         "{-1,0,4} x original_filename in {None,'',template} x results {none, zero updates, one update, all-zero values} x "
         "parameters {none, one, child with unpack_index 0, unpacked of length 1 / 0} x {json, pickle, to_dict/from_dict, "
-        ".json/.pickle/extension-less file}; E: invalid calls (malformed / truncated files, unknown extension, save of an "
+        ".json/.pickle/extension-less file}; H: objects reached through an edit history - every valid "
+        "sequence of <= 2 (thorough 3) public writers (set_unpack_parameter on/off, remove, add, item assignment) from 3 "
+        "initial mark sets, with and without every public reader called in between, on a SimulationParameters and in place "
+        "on the params of a SimulationResults: reported state = the edit history, indistinguishable (==, public view, file "
+        "name) from an object created in that state, round trips, a loaded-then-edited object derives the name of its new "
+        "values; E: invalid calls (malformed / truncated files, unknown extension, save of an "
         "unsupported value, unwritable destinations) are recorded as outcomes only - required is that afterwards a valid "
         "save+load of the same object round-trips and an earlier valid file still loads equal; alternative entry points (to_dict/from_dict, load_from_file on the '.pickle'-less "
         "name, save_to/load_from_pickled_file, get_filename_with_replaced_params); "
@@ -288,21 +295,101 @@ def diff(a, b, path="", owner=""):
             if d is not None:
                 return d
         return None
-    if hasattr(a, "__dict__"):
+    if hasattr(a, "__dict__") or any("__slots__" in k.__dict__ for k in type(a).__mro__):
         if type(a) is not type(b):
             return (owner, "%s->%s" % (tname(a), tname(b)), "%s: %r -> %r" % (path, a, b))
         cls = type(a).__name__
-        va, vb = bfs.state_of(a), bfs.state_of(b)
+        # compared through what the object shows publicly (not through its private layout:
+        # a renamed attribute, __slots__ or a lazily filled cache is not a difference)
+        va, vb = public_view(a), public_view(b)
         if set(va) != set(vb):
             return (cls, "attributes", "%s: %r -> %r" % (path, sorted(va), sorted(vb)))
         for k in sorted(va):
-            if cls == "SimulationResults" and k == "original_filename":
-                continue     # checked separately (it is set by save_to_file)
             d = diff(va[k], vb[k], "%s.%s" % (path, k), "%s.%s" % (cls, k))
             if d is not None:
                 return d
         return None
     return None if a == b else (owner, "other", "%s: %r -> %r" % (path, a, b))
+
+
+MISSING = object()
+VERIF_ROOT = os.path.dirname(os.path.dirname(os.path.abspath(__file__)))
+
+
+def _private(obj, *names, default=MISSING):
+    """an attribute the library does not promise (tolerant): first candidate that exists"""
+    for n in names:
+        try:
+            return getattr(obj, n)
+        except AttributeError:
+            continue
+    return default
+
+
+def parent_of(p):
+    """the SimulationParameters an unpacked variation came from: there is no
+    public getter; a private attribute under one of the known names, else
+    MISSING (the relations that need it are then skipped and counted)"""
+    return _private(p, "_original_sim_params", "original_sim_params", "_parent", "parent")
+
+
+def public_view(o):
+    """public observations of a library object as a dict name -> value"""
+    cls = type(o).__name__
+    if cls == "Result":
+        v = {"name": o.name, "type_code": o.type_code, "num_updates": o.num_updates,
+             "accumulate_values_bool": bool(o.accumulate_values_bool)}
+        # (get_result() is DERIVED from value / total: with a float32 value it is a float32 division
+        # before and a double division after a text round trip - same stored numbers, so not compared)
+        d = o.to_dict()
+        for k in sorted(d):
+            v["to_dict[%s]" % k] = d[k]
+        return v
+    if cls == "SimulationParameters":
+        v = {"parameters": o.parameters, "unpacked_parameters": list(o.unpacked_parameters),
+             "unpack_index": o.unpack_index}
+        par = parent_of(o)
+        if par is MISSING:
+            # only the dictionary representation shows it
+            par = o.to_dict().get("original_sim_params")
+        v["original_sim_params"] = par
+        return v
+    if cls == "SimulationResults":
+        names = sorted(o.get_result_names())
+        return {"params": o.params, "runned_reps": o.runned_reps, "current_rep": o.current_rep,
+                "result_names": names, "results": {n: list(o[n]) for n in names}}
+        # original_filename: set by save_to_file, compared separately
+    return dict(bfs.state_of(o))
+
+
+def _origin(exc):
+    """'library' if the innermost frame that belongs to pyphysim or to /verif is pyphysim's, else 'check'"""
+    for fr in reversed(traceback.extract_tb(exc.__traceback__)):
+        fn = os.path.abspath(fr.filename)
+        if fn.startswith(VERIF_ROOT + os.sep):
+            return "check"
+        if "/pyphysim/" in fn:
+            return "library"
+    return "check"
+
+
+@contextlib.contextmanager
+def guard(c, sig_prefix, case):
+    """c.guard for VALID calls: an exception raised inside pyphysim is a
+    violation; an exception whose innermost own frame is this check's code
+    means the CHECK is broken (exit 2) - never a verdict about the property."""
+    with c.guard(sig_prefix, case):
+        try:
+            yield
+        except (KeyboardInterrupt, SystemExit, Broken):
+            raise
+        except BaseException as e:  # noqa
+            if _origin(e) == "check":
+                fr = traceback.extract_tb(e.__traceback__)[-1]
+                raise Broken("check code raised %s: %s at %s:%s %s (case %s)" % (
+                    type(e).__name__, e, os.path.basename(fr.filename), fr.lineno, fr.name,
+                    {k: v for k, v in (case or {}).items() if k in ("part", "labels", "type", "target", "what")}))
+            raise
 
 
 def norm_json(text):
@@ -321,7 +408,7 @@ def norm_json(text):
 
 
 def has_set_unpacked(p):
-    return any(isinstance(p.parameters[n], (set, frozenset)) for n in p._unpacked_parameters_set)
+    return any(isinstance(p.parameters[n], (set, frozenset)) for n in p.unpacked_parameters)
 
 
 # ----------------------------------------------------------------------
@@ -374,7 +461,7 @@ def do_save(c, obj, target, T, template, case):
         o2 = copy.deepcopy(obj)      # save_to_file sets original_filename on the object
         full = p if ext else p + ".pickle"
         name1 = None
-        with c.guard(("file_name", "replace_parameters"), case):
+        with guard(c, ("file_name", "replace_parameters"), case):
             name1 = o2.get_filename_with_replaced_params(full)
         if name1 is None:
             raise NameFailed()
@@ -423,7 +510,7 @@ def save_then_load(c, obj, target, T, template, case, tg, stage_prefix=()):
         h = None
         out = []
         vanished = False
-        with c.guard(stage_prefix + (tg, "save"), case):
+        with guard(c, stage_prefix + (tg, "save"), case):
             try:
                 h = do_save(c, obj, target, T, template, case)
             except NameFailed:
@@ -434,7 +521,7 @@ def save_then_load(c, obj, target, T, template, case, tg, stage_prefix=()):
                     raise
                 vanished = True
         if h is not None and not vanished:
-            with c.guard(stage_prefix + (tg, "load"), case):
+            with guard(c, stage_prefix + (tg, "load"), case):
                 try:
                     out.append(do_load(type(obj), h))
                 except OSError:
@@ -464,7 +551,7 @@ def roundtrip(c, obj, target, case, T, template=None):
         return
     l1, h1 = r
     t1, info = h1.get("text"), h1.get("info")
-    with c.guard((tg, "oracle"), case):
+    with guard(c, (tg, "oracle"), case):
         # saving must not change the object that was saved
         d0 = diff(orig_snapshot, obj)
         if d0 is not None:
@@ -495,7 +582,7 @@ def roundtrip(c, obj, target, case, T, template=None):
                        case, observed="%r -> %r" % (a, b), expected="identical field")
         # (1) the library's own equality
         eq = None
-        with c.guard((tg, "eq(original,loaded)"), case):
+        with guard(c, (tg, "eq(original,loaded)"), case):
             eq = (l1 == obj)
             ne = (l1 != obj)
             if bool(eq) == bool(ne):
@@ -511,14 +598,22 @@ def roundtrip(c, obj, target, case, T, template=None):
         if d1 is not None:
             return
         # (3) unpack index still denotes the same combination
-        P = l1 if kind == "SimulationParameters" else getattr(l1, "_params", None)
-        if P is not None and P._original_sim_params is not None:
-            par = P._original_sim_params
+        P = l1 if kind == "SimulationParameters" else getattr(l1, "params", None)
+        par = parent_of(P) if P is not None else None
+        if par is MISSING:
+            # no attribute of a known name: rebuild the parent from the public dictionary representation
+            pd = P.to_dict().get("original_sim_params", MISSING)
+            par = MISSING if pd is MISSING else (None if pd is None else type(P).from_dict(copy.deepcopy(pd)))
+            c.count("parent_rebuilt_from_to_dict")
+        if par is MISSING:
+            c.count("oracle_input_unavailable")
+            c.outcome("oracle_input_unavailable", "parent_of_unpacked_variation")
+        elif par is not None:
             if has_set_unpacked(par):
                 c.count("excluded_index_relation_set_valued_unpack")
             else:
                 lst = par.get_unpacked_params_list()
-                i = P._unpack_index
+                i = P.unpack_index
                 ok = 0 <= i < len(lst) and diff(lst[i].parameters, P.parameters) is None
                 c.count("eval_child_index_relation")
                 if not ok:
@@ -537,7 +632,7 @@ def roundtrip(c, obj, target, case, T, template=None):
         if tg == "json":
             # third save (no load needed): the text must have reached its fixed point
             h3 = None
-            with c.guard(("third_trip", tg, "save"), case):
+            with guard(c, ("third_trip", tg, "save"), case):
                 try:
                     h3 = do_save(c, l2, target, T, template, case)
                 except OSError:
@@ -631,7 +726,7 @@ def run_params_case(c, case, T):
     entries = [(lab, A[lab]) for lab in labels]
     subset = case["unpacked"]
     which = case["object"]          # -1 = the object itself, k = k-th unpacked child
-    with c.guard(("build", "SimulationParameters"), case):
+    with guard(c, ("build", "SimulationParameters"), case):
         p = build_params(entries, subset)
         if which >= 0:
             p = p.get_unpacked_params_list()[which]
@@ -649,7 +744,7 @@ def run_params_case(c, case, T):
         else:
             inner = tg[3:]
             s = None
-            with c.guard(("build", "SimulationResults"), cs):
+            with guard(c, ("build", "SimulationResults"), cs):
                 s = wrap_results(p, nres)
             if s is not None:
                 roundtrip(c, s, inner, cs, T, template_for(len(labels)))
@@ -752,7 +847,7 @@ def run_result_case(c, case, T):
     t, acc, idx = case["type"], case["acc"], case["history"]
     obs = obs_from_idx(t, idx)
     r = None
-    with c.guard(("build", "Result", t), case):
+    with guard(c, ("build", "Result", t), case):
         r = build_result(t, acc, obs)
     if r is None:
         return
@@ -772,7 +867,7 @@ def run_result_case(c, case, T):
                 if case.get("only") and case["only"] != [variant, tg]:
                     continue
                 s = None
-                with c.guard(("build", "SimulationResults"), cs):
+                with guard(c, ("build", "SimulationResults"), cs):
                     s = SimulationResults()
                     if variant == 0:
                         p = SimulationParameters.create({"a": 3})
@@ -888,22 +983,187 @@ def run_bookkeeping_case(c, case, T):
     for tg in targets:
         cs = dict(case, target=tg)
         s = None
-        with c.guard(("build", "SimulationResults"), cs):
+        with guard(c, ("build", "SimulationResults"), cs):
             s = build_bookkeeping(case)
         if s is not None:
             roundtrip(c, s, tg, cs, T, "res_{a}" if has_a else "res")
     if "target" not in case:
         # the parameters object and every result on their own
         s = None
-        with c.guard(("build", "SimulationResults"), case):
+        with guard(c, ("build", "SimulationResults"), case):
             s = build_bookkeeping(case)
         if s is not None and case["runned_reps"] == 0 and case["current_rep"] == 0 and case["original_filename"] == 0:
             for tg in ("json", "pickle", "dict", "params_pickle_file"):
                 roundtrip(c, s.params, tg, dict(case, target="params:" + tg), T)
-            for lst in s._results.values():
-                for r in lst:
+            for rname in s.get_result_names():
+                for r in s[rname]:
                     for tg in ("json", "pickle", "dict"):
                         roundtrip(c, r, tg, dict(case, target="result:" + tg), T)
+
+
+# ----------------------------------------------------------------------
+# part H: objects reached through an EDIT HISTORY (public writers interleaved with public readers)
+# ----------------------------------------------------------------------
+H_INITIAL = {"a": [1, 2, 3], "b": [10, 20], "c": 5}
+H_VALUES = {"list": [7, 8], "scalar": 4}
+H_TEMPLATE = "res_{a}_{c}"
+
+
+def h_ops():
+    """writer alphabet over the names a, b (c stays a fixed scalar)"""
+    ops = []
+    for n in ("a", "b"):
+        ops += [["unpack", n, True], ["unpack", n, False], ["remove", n]]
+        for how in ("add", "setitem"):
+            for v in ("list", "scalar"):
+                ops.append([how, n, v])
+    return ops
+
+
+def h_enabled(model, marks, op):
+    """VALID calls only (documented preconditions)"""
+    kind, n = op[0], op[1]
+    if kind == "unpack":
+        if op[2]:
+            return n in model and isinstance(model[n], list) and n not in marks
+        return n in marks
+    if kind == "remove":
+        return n in model
+    # add / setitem: a scalar must not be put under a name that is marked to be unpacked
+    return not (op[2] == "scalar" and n in marks)
+
+
+def h_apply_model(model, marks, op):
+    kind, n = op[0], op[1]
+    if kind == "unpack":
+        (marks.add if op[2] else marks.discard)(n)
+    elif kind == "remove":
+        del model[n]
+        marks.discard(n)
+    else:
+        model[n] = copy.deepcopy(H_VALUES[op[2]])
+
+
+def h_apply(p, op):
+    kind, n = op[0], op[1]
+    if kind == "unpack":
+        p.set_unpack_parameter(n, op[2])
+    elif kind == "remove":
+        p.remove(n)
+    elif kind == "add":
+        p.add(n, copy.deepcopy(H_VALUES[op[2]]))
+    else:
+        p[n] = copy.deepcopy(H_VALUES[op[2]])
+
+
+def h_read(p, s=None):
+    """every public reader once (whatever they remember must not outlive the next write)"""
+    _ = (p.unpacked_parameters, p.fixed_parameters, len(p), p.get_num_unpacked_variations(),
+         p.get_unpacked_params_list(), p.to_dict(), p.to_json())
+    if s is not None:
+        _ = (s.get_filename_with_replaced_params(H_TEMPLATE + ".json"), s.to_json())
+
+
+def h_fresh(model, marks, with_results):
+    from pyphysim.simulations.parameters import SimulationParameters
+    p = SimulationParameters.create(copy.deepcopy(model))
+    for n in sorted(marks):
+        p.set_unpack_parameter(n)
+    if not with_results:
+        return p
+    return h_wrap(p)
+
+
+def h_wrap(p):
+    from pyphysim.simulations.results import Result, SimulationResults
+    s = SimulationResults()
+    s.set_parameters(p)
+    r = Result("r", Result.SUMTYPE)
+    r.update(3)
+    s.add_result(r)
+    s.runned_reps = [1]
+    return s
+
+
+def history_cases(tier):
+    ops = h_ops()
+    L = 3 if tier == "thorough" else 2
+    for initial_marks in ([], ["a"], ["a", "b"]):
+        for n in range(1, L + 1):
+            for seq in itertools.product(range(len(ops)), repeat=n):
+                model, marks, ok = copy.deepcopy(H_INITIAL), set(initial_marks), True
+                for i in seq:
+                    if not h_enabled(model, marks, ops[i]):
+                        ok = False
+                        break
+                    h_apply_model(model, marks, ops[i])
+                if ok:
+                    for reads in (False, True):
+                        yield ("H", {"part": "H", "initial_marks": initial_marks, "ops": [ops[i] for i in seq],
+                                     "reads": reads})
+
+
+def run_history_case(c, case, T):
+    from pyphysim.simulations.parameters import SimulationParameters
+    ops, reads = case["ops"], case["reads"]
+    with guard(c, ("history",), case):
+        for level in ("params", "results"):
+            model, marks = copy.deepcopy(H_INITIAL), set(case["initial_marks"])
+            p = SimulationParameters.create(copy.deepcopy(model))
+            for n in sorted(marks):
+                p.set_unpack_parameter(n)
+            s = h_wrap(p) if level == "results" else None
+            if reads:
+                h_read(p, s)
+            for op in ops:
+                h_apply(p, op)              # on the results level: in place, through s.params
+                h_apply_model(model, marks, op)
+                if reads:
+                    h_read(p, s)
+            c.count("eval_histories")
+            c.nontriv(("H", level, repr(case["initial_marks"]), repr(ops), reads))
+            c.outcome("history_final_states", (repr(sorted(model.items())), tuple(sorted(marks))))
+            obj = s if s is not None else p
+            cs = dict(case, level=level)
+            # (i) the reported state is what the edit history says
+            nvar = 1
+            for n in marks:
+                nvar *= len(model[n])
+            observed = (diff(model, p.parameters), list(p.unpacked_parameters), p.get_num_unpacked_variations(),
+                        len(p.get_unpacked_params_list()) if marks else 1)
+            expected = (None, sorted(marks), nvar, nvar if marks else 1)
+            if observed != expected:
+                c.fail(("history", "reported_state_differs_from_edit_history",
+                        "after_reads" if reads else "no_reads"), cs, observed=observed, expected=expected)
+                continue
+            # (ii) it is indistinguishable from an object CREATED in that state: ==, public view, file name
+            fresh = h_fresh(model, marks, level == "results")
+            d = diff(fresh, obj)
+            if d is not None or not (obj == fresh) or (obj != fresh):
+                c.fail(("history", "differs_from_fresh_object_in_same_state", level), cs,
+                       observed=d[2] if d else "== False")
+            if s is not None:
+                for ext in (".json", ".pickle"):
+                    a, b = s.get_filename_with_replaced_params(H_TEMPLATE + ext), \
+                        fresh.get_filename_with_replaced_params(H_TEMPLATE + ext)
+                    if a != b:
+                        c.fail(("history", "file_name_differs_from_fresh_object", "after_reads" if reads else "no_reads"),
+                               cs, observed=a, expected=b)
+            # (iii) it round-trips like any other object
+            for tg in (("json", "pickle", "dict") if s is None else ("json", "file_json", "file_pickle")):
+                roundtrip(c, obj, tg, dict(cs, target=tg), T, H_TEMPLATE)
+            # (iv) a LOADED object edited afterwards still derives the name of its new parameter values
+            if s is not None:
+                for how in ("pickle", "json"):
+                    l = pickle.loads(pickle.dumps(s, protocol=2)) if how == "pickle" else type(s).from_json(s.to_json())
+                    l.get_filename_with_replaced_params(H_TEMPLATE + ".json")
+                    l.params["c"] = 6
+                    m2 = dict(copy.deepcopy(model), c=6)
+                    want = h_fresh(m2, marks, True).get_filename_with_replaced_params(H_TEMPLATE + ".json")
+                    got = l.get_filename_with_replaced_params(H_TEMPLATE + ".json")
+                    if got != want:
+                        c.fail(("history", "file_name_of_loaded_then_edited_object", how), cs, observed=got,
+                               expected=want)
 
 
 # ----------------------------------------------------------------------
@@ -957,7 +1217,7 @@ def after_invalid_call(c, what, case, T, obj, earlier):
     VALID file of another name still loads equal (neither the object nor
     unrelated files were corrupted)."""
     from pyphysim.simulations.results import SimulationResults
-    with c.guard(("after_invalid_call", what), case):
+    with guard(c, ("after_invalid_call", what), case):
         if earlier is not None:
             path, original = earlier
             back = SimulationResults.load_from_file(path)
@@ -1027,7 +1287,7 @@ def part_errors(c, T):
             invalid_call(c, what + ":Result.from_json", lambda: Result.from_json(bad))
             os.remove(p)
             return good_results()
-        with c.guard(("after_invalid_call", "load_malformed_json"), case):
+        with guard(c, ("after_invalid_call", "load_malformed_json"), case):
             with_earlier(body, "load_malformed_json", case)
     for label, bad in (("empty", b""), ("half", pk[:len(pk) // 2]), ("all_but_one", pk[:-1]), ("text", b"hello")):
         case = {"part": "E", "what": "load_malformed_pickle", "which": label}
@@ -1042,7 +1302,7 @@ def part_errors(c, T):
             invalid_call(c, what + ":load_from_pickled_file", lambda: SimulationParameters.load_from_pickled_file(p))
             os.remove(p)
             return good_results()
-        with c.guard(("after_invalid_call", "load_malformed_pickle"), case):
+        with guard(c, ("after_invalid_call", "load_malformed_pickle"), case):
             with_earlier(body, "load_malformed_pickle", case)
     # (b) unknown extension
     case = {"part": "E", "what": "unknown_extension"}
@@ -1056,7 +1316,7 @@ def part_errors(c, T):
         os.remove(os.path.join(d, "x.txt"))
         s.original_filename = None      # reported state re-synchronised: the field is set by a (valid) save
         return s
-    with c.guard(("after_invalid_call", "unknown_extension"), case):
+    with guard(c, ("after_invalid_call", "unknown_extension"), case):
         with_earlier(body, "unknown_extension", case)
     # (c) a save that fails on an unsupported parameter value; afterwards the value is removed (valid call)
     for ext, poison in ((".json", complex(1, 2)), (".pickle", lambda x: x)):
@@ -1068,7 +1328,7 @@ def part_errors(c, T):
             s.params.remove("bad")
             s.original_filename = None
             return s
-        with c.guard(("after_invalid_call", "failing_save"), case):
+        with guard(c, ("after_invalid_call", "failing_save"), case):
             with_earlier(body, "failing_save" + ext, case)
     # (d) unwritable destinations
     for label in ("missing_directory", "final_name_is_a_directory"):
@@ -1086,7 +1346,7 @@ def part_errors(c, T):
                 invalid_call(c, "params_save_to_" + label, lambda: s.params.save_to_pickled_file(p))
                 s.original_filename = None
                 return s
-            with c.guard(("after_invalid_call", "unwritable_destination"), case):
+            with guard(c, ("after_invalid_call", "unwritable_destination"), case):
                 with_earlier(body, "unwritable_" + label, case)
 
 
@@ -1116,7 +1376,7 @@ def part_names(c):
         names = []
         for v in vals:
             case = {"part": "N", "group": group, "values": [v]}
-            with c.guard(("file_name", "one_placeholder"), case):
+            with guard(c, ("file_name", "one_placeholder"), case):
                 a, b = file_name([v])
                 c.count("eval_file_names")
                 if a != b:
@@ -1142,7 +1402,7 @@ def part_names(c):
     names = {}
     for v, w in pairs:
         case = {"part": "N", "group": "two", "values": [v, w]}
-        with c.guard(("file_name", "two_placeholders"), case):
+        with guard(c, ("file_name", "two_placeholders"), case):
             a, b = file_name([v, w])
             c.count("eval_file_names")
             if a != b:
@@ -1165,7 +1425,7 @@ def probe_choice(chk):
     from pyphysim.simulations.results import Result as R
     case = {"part": "probe", "what": "Result('c', Result.CHOICETYPE, choice_num=3).update(0)"}
     ok = []
-    with chk.guard(("Result.update", "CHOICETYPE"), case):
+    with guard(chk, ("Result.update", "CHOICETYPE"), case):
         r = R("c", R.CHOICETYPE, choice_num=CHOICE_NUM)
         r.update(0)
         ok.append(1)
@@ -1174,6 +1434,8 @@ def probe_choice(chk):
 
 def work_items(tier, types_ok):
     for it in bookkeeping_cases():
+        yield it
+    for it in history_cases(tier):
         yield it
     for it in result_cases(tier, types_ok):
         yield it
@@ -1206,9 +1468,9 @@ def main(chk: Check):
     tier = chk.tier
     top = make_tmpdir()
     try:
-        with chk.guard(("file_name",), {"part": "N"}):
+        with guard(chk, ("file_name",), {"part": "N"}):
             part_names(chk)
-        with chk.guard(("error_paths",), {"part": "E"}):
+        with guard(chk, ("error_paths",), {"part": "E"}):
             part_errors(chk, Targets(chk, tempfile.mkdtemp(prefix="errors-", dir=top)))
 
         def worker(i, n, c):
@@ -1220,6 +1482,8 @@ def main(chk: Check):
                         run_result_case(c, item[1], T)
                     elif item[0] == "B":
                         run_bookkeeping_case(c, item[1], T)
+                    elif item[0] == "H":
+                        run_history_case(c, item[1], T)
                     else:
                         expand_params_item(c, item, tier, T)
             finally:
@@ -1229,6 +1493,9 @@ def main(chk: Check):
     finally:
         shutil.rmtree(top, ignore_errors=True)
     chk.extra["scratch_dir_removed"] = not os.path.exists(top)
+    chk.extra["oracle_input_unavailable"] = chk.counters.get("oracle_input_unavailable", 0)
+    if chk.counters.get("eval_roundtrips", 0) == 0:
+        raise Broken("vacuous: no round trip was evaluated")
     chk.sample({"part": "P", "labels": ["np.float32", "list_int"], "unpacked": ["b"], "object": 1, "target": "SR:file_json"})
     chk.sample({"part": "R", "type": "RATIO", "acc": True, "history": [0, 3], "target": "json"})
     chk.sample({"part": "N", "group": "numbers", "values": [2.5], "other": [2.54]})
@@ -1239,6 +1506,7 @@ def main(chk: Check):
     chk.require_outcomes("roundtrip_outcomes", 4)
     chk.require_outcomes("bookkeeping_shapes", len(BK_PARAMS) * len(BK_RESULTS))
     chk.require_outcomes("invalid_call", 10)
+    chk.require_outcomes("history_final_states", 20)
 
 
 def replay(case, chk: Check):
@@ -1252,6 +1520,8 @@ def replay(case, chk: Check):
             part_names(chk)
         elif part == "E":
             part_errors(chk, T)
+        elif part == "H":
+            run_history_case(chk, {k: v for k, v in case.items() if k not in ("target", "level")}, T)
         elif part == "B":
             cs = dict(case)
             if str(cs.get("target", "")).startswith(("params:", "result:")):
